@@ -126,6 +126,14 @@ Section Deb.
       destruct (negb (match upto_nl s0 with Some l => str_eqb l ver20 | None => false end)); [reflexivity|]. apply Nat.ltb_lt in H. rewrite H. now rewrite orb_true_r.
     - now rewrite H.
   Qed.
+  (* a role that is not present, or a signature the keyring does not verify, makes verification fail *)
+  Theorem C16_no_role kr role d : lookup (s "_gpg" ++ role) (d_members d) = None -> check_debsig kr role d = None.
+  Proof. intros H. unfold check_debsig. now rewrite H. Qed.
+  Theorem C16_not_verified kr role d : (forall x sg, pgp_verify kr x sg = None) -> check_debsig kr role d = None.
+  Proof.
+    intros H. unfold check_debsig. destruct (lookup _ _); [|reflexivity]. destruct (lookup _ _); [|reflexivity].
+    destruct (pickS _) as [[? ?]|]; [|reflexivity]. destruct (pickS _) as [[? ?]|]; [|reflexivity]. apply H.
+  Qed.
 End Deb.
 
 (* the outcome of loading does not depend on the map iteration order *)
